@@ -230,15 +230,22 @@ pub fn run(ctx: &Ctx) -> Report {
     run_prop(ctx, "c11-wide", wide, 100, (gen::synth_strategy(), 1u32..=2), &mut rep, |(ent, d), rep| {
         let mut e = Entropy::new(ent);
         let mut p = Pos::empty();
-        let bk = [0usize, 7, 56, 63, 3, 60, 24, 39][e.pick(8)];
+        // the lone side's king sits in a corner behind three of its own pieces, so there is no
+        // instant mate and the value is decided by which loose piece can be won
+        let (bk, shield): (usize, [usize; 3]) = [(63usize, [54usize, 55, 62]), (56, [48, 49, 57]), (7, [6, 14, 15]), (0, [1, 8, 9])][e.pick(4)];
         p.sq[bk] = o::mk(false, o::K);
-        let far: Vec<usize> = (0..64).filter(|&s| (o::file_of(s) - o::file_of(bk)).abs().max((o::rank_of(s) - o::rank_of(bk)).abs()) > 2).collect();
+        for (i, &s) in shield.iter().enumerate() {
+            p.sq[s] = o::mk(false, [o::P, o::N, o::B][(i + e.pick(3)) % 3]);
+            if o::pt(p.sq[s]) == o::P && !(1..=6).contains(&o::rank_of(s)) {
+                p.sq[s] = o::mk(false, o::N);
+            }
+        }
+        let far: Vec<usize> = (0..64).filter(|&s| p.sq[s] == 0 && (o::file_of(s) - o::file_of(bk)).abs().max((o::rank_of(s) - o::rank_of(bk)).abs()) > 3).collect();
         p.sq[far[e.pick(far.len())]] = o::mk(true, o::K);
         let nq = 6 + e.pick(4);
         let mut pieces = vec![o::Q; nq];
-        pieces.extend([o::R, o::R, o::B, o::N]);
+        pieces.extend([o::R, o::R]);
         for t in pieces {
-            // not giving check and not adjacent to the bare king (no captures for it)
             let free: Vec<usize> = (0..64)
                 .filter(|&s| {
                     if p.sq[s] != 0 {
@@ -254,14 +261,16 @@ pub fn run(ctx: &Ctx) -> Report {
             }
             p.sq[free[e.pick(free.len())]] = o::mk(true, t);
         }
-        for _ in 0..e.pick(3) {
-            let t = [o::N, o::B, o::P][e.pick(3)];
+        // one to three loose pieces of the lone side somewhere on the board
+        for _ in 0..1 + e.pick(3) {
+            let t = [o::N, o::B, o::R, o::P][e.pick(4)];
             let free: Vec<usize> = (0..64).filter(|&s| p.sq[s] == 0 && (t != o::P || (1..=6).contains(&o::rank_of(s)))).collect();
             p.sq[free[e.pick(free.len())]] = o::mk(false, t);
         }
         p.wtm = true;
         p.fmn = 40 + e.pick(40) as u32;
         let p = if e.pick(2) == 1 { p.mirror() } else { p };
+        let p = if e.pick(2) == 1 { gen::flip_files(&p) } else { p };
         if p.is_valid_start().is_err() || p.legal_moves().is_empty() {
             rep.class("start:rejected");
             return Ok(());
@@ -271,6 +280,42 @@ pub fn run(ctx: &Ctx) -> Report {
         } else {
             rep.class("start:wide(<=128)");
         }
+        let out = compare(&p.to_fen(), &[], *d, budget, rep)?;
+        if let Some(s) = out.skipped {
+            rep.class(&format!("skipped:{s}"));
+        }
+        Ok(())
+    });
+    // pawn endgames: kings and one to three pawns close to promotion, depth 3-4 (tiny trees, so many
+    // cases): under-promotions, stalemate tricks and promotion races decide the value
+    let kpk = ctx.tier.pick(4000, 80_000) / ctx.shard_count() as u32;
+    run_prop(ctx, "c11-kpk", kpk, 200, (gen::synth_strategy(), 3u32..=4), &mut rep, |(ent, d), rep| {
+        let mut e = Entropy::new(ent);
+        let mut p = Pos::empty();
+        let wk = e.pick(64);
+        let c: Vec<usize> = (0..64).filter(|&s| (o::file_of(s) - o::file_of(wk)).abs().max((o::rank_of(s) - o::rank_of(wk)).abs()) > 1).collect();
+        p.sq[wk] = o::mk(true, o::K);
+        p.sq[c[e.pick(c.len())]] = o::mk(false, o::K);
+        for _ in 0..1 + e.pick(3) {
+            let white = e.pick(3) != 0;
+            // mostly on the 6th/7th rank of the owner
+            let r = if white { [6, 6, 5, 4][e.pick(4)] } else { [1, 1, 2, 3][e.pick(4)] };
+            let f = e.pick(8) as i32;
+            if p.sq[o::sq(f, r)] == 0 {
+                p.sq[o::sq(f, r)] = o::mk(white, o::P);
+            }
+        }
+        if e.pick(4) == 0 {
+            let free: Vec<usize> = (0..64).filter(|&s| p.sq[s] == 0).collect();
+            p.sq[free[e.pick(free.len())]] = o::mk(e.pick(2) == 0, [o::N, o::B][e.pick(2)]);
+        }
+        p.wtm = e.pick(2) == 0;
+        p.fmn = 50 + e.pick(30) as u32;
+        if p.is_valid_start().is_err() || p.legal_moves().is_empty() {
+            rep.class("start:rejected");
+            return Ok(());
+        }
+        rep.class("start:pawn-endgame");
         let out = compare(&p.to_fen(), &[], *d, budget, rep)?;
         if let Some(s) = out.skipped {
             rep.class(&format!("skipped:{s}"));
@@ -354,7 +399,7 @@ pub fn replay(ctx: &Ctx, case: &Value) -> Report {
 }
 
 pub const LEVEL: &str = "exploration";
-pub const RULE: &str = "cases = (position, game history, depth): every corpus FEN at depth 1-2 (quick) / 1-3 (thorough) plus proptest-generated cases from corpus / synthesised / pattern starts (mate nets, stalemates, fifty-move clocks 97-120, sparse endgames), half of them reached by up to 40 plies of weighted play whose history is kept (so repetitions are remembered); plus very wide nodes (6-9 queens against a nearly bare king, > 128 pseudo-legal moves) at depth 1-2, discovered-check set-ups at depth 2-3 and 'check-chain' positions (queens and rooks on an open board with bare kings) at depth 1-2; depth 1-3 everywhere, 4 when the root has <= 14 moves, 5 when <= 8, 6 when <= 5. With caching neutralised (hook H1): engine root score == reference unpruned negamax of the engine's look-ahead game on the oracle board, root entry depth == asked depth, and the chosen move's reference value == the root value (ties allowed). Cases whose reference exceeds its node budget are skipped and counted. Non-trivial = the value is not the static evaluation of the root or the tree contained a mate score, repetition draw, fifty-move draw, check extension, stalemate or quiescence capture; distinct by (start, moves, depth).";
+pub const RULE: &str = "cases = (position, game history, depth): every corpus FEN at depth 1-2 (quick) / 1-3 (thorough) plus proptest-generated cases from corpus / synthesised / pattern starts (mate nets, stalemates, fifty-move clocks 97-120, sparse endgames), half of them reached by up to 40 plies of weighted play whose history is kept (so repetitions are remembered); plus very wide nodes (6-9 queens against a king shielded in a corner with a few loose pieces, > 128 pseudo-legal moves) at depth 1-2, pawn endgames (kings, 1-3 pawns near promotion) at depth 3-4, discovered-check set-ups at depth 2-3 and 'check-chain' positions (queens and rooks on an open board with bare kings) at depth 1-2; depth 1-3 everywhere, 4 when the root has <= 14 moves, 5 when <= 8, 6 when <= 5. With caching neutralised (hook H1): engine root score == reference unpruned negamax of the engine's look-ahead game on the oracle board, root entry depth == asked depth, and the chosen move's reference value == the root value (ties allowed). Cases whose reference exceeds its node budget are skipped and counted. Non-trivial = the value is not the static evaluation of the root or the tree contained a mate score, repetition draw, fifty-move draw, check extension, stalemate or quiescence capture; distinct by (start, moves, depth).";
 pub const ASSUMPTIONS: &[&str] = &[
     "the independent rules oracle; the reference negamax in vf/refsearch.rs (no pruning, no ordering, quiescence memoised by position)",
     "hook H1 empties the cache before every probe; the root's own store happens after the last probe, so the root result is read from the public TRANSPOSITION_TABLE",
